@@ -1760,6 +1760,10 @@ class Interp:
                 for sg in (norm_segs(sq.segs) if sq.is_bytes() else sq.segs):
                     if sg[0] == 'elem': out.append(sg[1])
                     elif sg[0] == 'int' and sg[2] == 1: out.append(sg[1])
+                    elif sg[0] == 'int' and sg[2] <= 8 and sq.is_bytes():
+                        # the little-endian bytes of an integer, one by one
+                        for k_ in range(sg[2]):
+                            out.append(C((sg[1][1] >> (8 * k_)) & 0xff) if sg[1][0] == 'c' else band(shr(sg[1], C(8 * k_)) if k_ else sg[1], C(0xff)))
                     else: return None
                 return out if len(out) <= 64 else None
             def at(iv, k):
@@ -1771,6 +1775,9 @@ class Interp:
                 return self.seq_get(sq, C(k))
             pa, pb = itv.parts
             ka, kb = known(pa), known(pb)
+            # `.zip(k..)`: as many indices as the other side has elements
+            if getattr(pa, 'count_from', None) is not None and kb is not None: ka = [add(pa.count_from, C(i_)) for i_ in range(len(kb))]
+            if getattr(pb, 'count_from', None) is not None and ka is not None: kb = [add(pb.count_from, C(i_)) for i_ in range(len(ka))]
             n_ = None
             if ka is not None and kb is not None: n_ = min(len(ka), len(kb))
             elif ka is not None: n_ = len(ka)
@@ -1784,8 +1791,30 @@ class Interp:
                 if va is None or vb is None or isinstance(va, Top) or isinstance(vb, Top):
                     self.top('zip: the other sequence is not known to be long enough', e); return
                 self._iter_idx = C(k_)
-                fn(TupleV([wa(va), wb(vb)]))
+                # (a by-reference side over a real sequence yields places, so that `*d = s` through `iter_mut().zip(..)` lands)
+                def ref_of(part, v_):
+                    sq_ = part.seq
+                    while isinstance(sq_, RefV): sq_ = sq_.place.get()
+                    if part.by_ref and isinstance(sq_, SeqV) and not part.maps and getattr(part, 'count_from', None) is None: return RefV(IndexPlace(self, sq_, C(k_)), True)
+                    return None
+                fn(TupleV([ref_of(pa, va) or wa(va), ref_of(pb, vb) or wb(vb)]))
             self._iter_idx = None
+            return
+        if isinstance(itv, IterV) and itv.kind == 'flat_map':
+            # it.flat_map(f): the elements of f(x) for every x, in order
+            inner_fn = fn; maps_ = list(itv.maps)
+            if maps_:
+                if any(m_ == 'enumerate' for m_ in maps_): self.top('enumerate() over a flat_map', e); return
+                def fn(el, inner_fn=inner_fn, maps_=maps_):
+                    for m_ in maps_:
+                        if isinstance(m_, ClosureV): el = self.call_closure(m_, [el], e)
+                    return inner_fn(el)
+            def per(x):
+                r_ = self.call_closure(itv.fn, [x], e)
+                while isinstance(r_, RefV): r_ = r_.place.get()
+                if isinstance(r_, Top): return
+                self.iterate(r_, fn, e)
+            self.iterate(itv.inner, per, e)
             return
         if isinstance(itv, IterV) and itv.kind == 'chain':
             # a.chain(b): the elements of a, then those of b (adaptors applied after the chain see both)
